@@ -268,7 +268,11 @@ type useSpec struct {
 }
 
 // slotNode builds the <slot> for a use. In a loop the props come from the iteration.
-func (b *builder) slotNode(ci compInfo, p string, u useSpec, scope []sv, itemX, nX string) Node {
+//
+// badgeX is the path of the optional prop `badge`: a key that some records have and others lack (or
+// hold nil), or a path that never resolves - so the prop has a value in some uses of the slot and is
+// absent in others.
+func (b *builder) slotNode(ci compInfo, p string, u useSpec, scope []sv, itemX, nX, badgeX string) Node {
 	n := Node{K: "slot", Name: u.name}
 	for _, pn := range ci.slots[u.name].props {
 		switch pn {
@@ -276,6 +280,8 @@ func (b *builder) slotNode(ci compInfo, p string, u useSpec, scope []sv, itemX, 
 			n.Bind = append(n.Bind, KV{K: "item", V: itemX})
 		case "n":
 			n.Bind = append(n.Bind, KV{K: "n", V: nX})
+		case "badge":
+			n.Bind = append(n.Bind, KV{K: "badge", V: badgeX, O: true})
 		}
 	}
 	if u.fallback {
@@ -299,7 +305,7 @@ func (b *builder) useNodes(ci compInfo, p string, u useSpec, fm bool) []Node {
 		idx, it := fmt.Sprintf("ci%d", ci.idx), fmt.Sprintf("ce%d", ci.idx)
 		inner := append([]sv{{it, ci.elem, true}, {idx, "i", true}}, scope...)
 		li := Node{K: "el", Tag: "li", M: b.id(p + "l"), For: &For{Idx: idx, Item: it, List: ci.items()},
-			Kids: []Node{b.slotNode(ci, p, u, inner, it, idx)}}
+			Kids: []Node{b.slotNode(ci, p, u, inner, it, idx, it+".badge")}}
 		if b.ch.n("loop-sibling", 2) == 0 {
 			li.Kids = append([]Node{{K: "el", Tag: "span", M: b.id(p + "s"), Kids: []Node{{K: "text", T: []Part{{X: idx}}}}}}, li.Kids...)
 		}
@@ -308,11 +314,12 @@ func (b *builder) useNodes(ci compInfo, p string, u useSpec, fm bool) []Node {
 		// the slot sits directly between two sibling elements of the component root
 		return []Node{
 			{K: "el", Tag: "span", M: b.id(p + "b")},
-			b.slotNode(ci, p, u, scope, ci.itemOutside(), ci.num()),
+			// a second, bare use binds badge to a path that never resolves
+			b.slotNode(ci, p, u, scope, ci.itemOutside(), ci.num(), ci.rec()+".nobadge"),
 			{K: "el", Tag: "span", M: b.id(p + "a")},
 		}
 	}
-	return []Node{{K: "el", Tag: "section", M: b.id(p + "w"), Kids: []Node{b.slotNode(ci, p, u, scope, ci.itemOutside(), ci.num())}}}
+	return []Node{{K: "el", Tag: "section", M: b.id(p + "w"), Kids: []Node{b.slotNode(ci, p, u, scope, ci.itemOutside(), ci.num(), ci.rec()+".badge")}}}
 }
 
 // leaf builds a component whose body is a root element with a header and the slot uses.
@@ -386,7 +393,9 @@ func (b *builder) include(ci compInfo, o incOpts, plans []supplyPlan, ex exclusi
 			sup.Var = o.varName
 			var add []sv
 			for _, pn := range props {
-				add = append(add, sv{o.varName + "." + pn, propType(ci, pn), true})
+				if pn != "badge" {
+					add = append(add, sv{o.varName + "." + pn, propType(ci, pn), true})
+				}
 			}
 			scope = append(add, scope...)
 		case "destr":
@@ -397,11 +406,24 @@ func (b *builder) include(ci compInfo, o incOpts, plans []supplyPlan, ex exclusi
 			sup.Destr = append([]string(nil), props...)
 			var add []sv
 			for _, pn := range props {
-				add = append(add, sv{pn, propType(ci, pn), true})
+				if pn != "badge" {
+					add = append(add, sv{pn, propType(ci, pn), true})
+				}
 			}
 			scope = append(add, scope...)
 		}
 		kids := b.content(o.p, scope, 0, true)
+		if hasProp(props, "badge") && (sup.Var != "" || len(sup.Destr) > 0) {
+			// print the optional prop in a marker of its own, next to a never-defined control name:
+			// where this use of the slot binds nothing for badge, both must print alike
+			read, ctl := "badge", "zznone"
+			if sup.Var != "" {
+				read, ctl = sup.Var+".badge", sup.Var+".zznone"
+			}
+			kids = append(kids,
+				Node{K: "el", Tag: "i", M: b.id(o.p + "q"), Kids: []Node{{K: "text", T: []Part{{X: read, O: true}}}}},
+				Node{K: "el", Tag: "i", M: b.id(o.p + "u"), Kids: []Node{{K: "text", T: []Part{{X: ctl, O: true}}}}})
+		}
 		if o.hook != nil {
 			kids = append(kids, o.hook(pl, scope)...)
 		}
@@ -487,6 +509,15 @@ func renameRoots(nodes []Node, names []string, v string) []Node {
 	return out
 }
 
+func hasProp(props []string, name string) bool {
+	for _, p := range props {
+		if p == name {
+			return true
+		}
+	}
+	return false
+}
+
 func propType(ci compInfo, pn string) string {
 	if pn == "n" {
 		return "i"
@@ -497,6 +528,18 @@ func propType(ci compInfo, pn string) string {
 // ---------------------------------------------------------------------------------------------
 // Data
 // ---------------------------------------------------------------------------------------------
+
+// withBadge adds the optional key: "" = absent, "nil" = present with a nil value, else the value.
+func withBadge(r vals.V, badge string) vals.V {
+	switch badge {
+	case "":
+	case "nil":
+		r.M["badge"] = vals.Nil()
+	default:
+		r.M["badge"] = vals.Str(badge)
+	}
+	return r
+}
 
 func recV(name string, k int, ok bool) vals.V {
 	return vals.Map(map[string]vals.V{"name": vals.Str(name), "k": vals.Int(k), "ok": vals.Bool(ok)})
@@ -513,9 +556,9 @@ func fixedData(variant int) map[string]vals.V {
 		"pa": vals.Str("Aa1"), "pb": vals.Str("Bb2"), "pn": vals.Int(variant % 2 * 7), "pt": vals.Bool(true), "pf": vals.Bool(false),
 		"plist":  vals.List("[]string", vals.Str("s0"), vals.Str("s1")),
 		"plist2": vals.List("[]any", vals.Str("t0"), vals.Str("t1"), vals.Str("t2")),
-		"prows":  vals.List("[]map", recV("r0", 0, true), recV("r1", 5, false)),
-		"prows2": vals.List("[]any", recV("q0", 3, false)),
-		"prec":   recV("rc", 4, true),
+		"prows":  vals.List("[]map", withBadge(recV("r0", 0, true), "new"), recV("r1", 5, false), withBadge(recV("r2", 2, true), "hot"), withBadge(recV("r3", 1, false), "nil")),
+		"prows2": vals.List("[]any", recV("q0", 3, false), withBadge(recV("q1", 6, true), "top"), recV("q2", 8, true)),
+		"prec":   withBadge(recV("rc", 4, true), "rcb"),
 		"prec2":  recV("rd", 0, false),
 	}
 	return d
@@ -532,7 +575,14 @@ func genData(t *rapid.T) map[string]vals.V {
 		return vals.List(kind, l...)
 	}
 	rec := func(p, label string) vals.V {
-		return recV(tok(p, label), rapid.IntRange(0, 9).Draw(t, label+"-k"), rapid.Bool().Draw(t, label+"-ok"))
+		r := recV(tok(p, label), rapid.IntRange(0, 9).Draw(t, label+"-k"), rapid.Bool().Draw(t, label+"-ok"))
+		switch rapid.IntRange(0, 3).Draw(t, label+"-badge") {
+		case 0, 1:
+			r = withBadge(r, tok("g", label))
+		case 2:
+			r = withBadge(r, "nil")
+		}
+		return r
 	}
 	recList := func(p, label, kind string) vals.V {
 		n := rapid.IntRange(0, 3).Draw(t, label+"-n")
